@@ -108,6 +108,8 @@ pub struct Prog {
     pub coarse: Vec<(usize, i64)>,
     /// watch effects: node id -> the signal the handler reads
     pub handler: Vec<(usize, usize)>,
+    /// defs [start, end) are created inside a `scope` (signals and memos only)
+    pub scope: Option<(usize, usize)>,
     pub tags: Vec<&'static str>,
 }
 
@@ -328,11 +330,19 @@ pub fn gen_prog_with(r: &mut Rng, mode: Mode, more_untracked: bool) -> Prog {
     if tags.is_empty() {
         tags.push("plain");
     }
-    Prog { defs, render, other, coarse, handler, tags }
+    Prog { defs, render, other, coarse, handler, scope: None, tags }
 }
 
 pub fn write_prog(f: &mut impl Write, p: &Prog) -> std::io::Result<()> {
     for (i, d) in p.defs.iter().enumerate() {
+        if let Some((a, b)) = p.scope {
+            if i == a {
+                writeln!(f, "scope")?;
+            }
+            if i == b {
+                writeln!(f, "endscope")?;
+            }
+        }
         match d {
             Def::Sig(v) => writeln!(f, "sig {v}")?,
             Def::Key(..) => {}
@@ -350,6 +360,11 @@ pub fn write_prog(f: &mut impl Write, p: &Prog) -> std::io::Result<()> {
                 }
             }
             Def::Eff(b) => writeln!(f, "eff {}", show_expr(b))?,
+        }
+    }
+    if let Some((_, b)) = p.scope {
+        if b == p.defs.len() {
+            writeln!(f, "endscope")?;
         }
     }
     Ok(())
@@ -756,9 +771,31 @@ pub fn gen(mode: Mode, seed: u64, n: usize, path: &str, _tier: &str) -> std::io:
         } else {
             None
         };
+        // node lifetime vs owner lifetime: a run of signals / memos is created under a child owner that is cleaned up
+        // early in the history; they are reference counted there and must keep working
+        if r.chance(1, 4) {
+            let a = r.below(p.defs.len());
+            let mut b = a;
+            while b < p.defs.len() && matches!(p.defs[b], Def::Sig(_) | Def::Memo(_)) && b - a < 5 {
+                b += 1;
+            }
+            if b > a {
+                p.scope = Some((a, b));
+                p.tags.push("scope");
+            }
+        }
         let mut tags = p.tags.clone();
         let has_eff = p.defs.iter().any(|d| matches!(d, Def::Eff(_)));
         let lifecycle = has_eff && r.chance(1, 4);
+        // memo-only programs: pausing the root owner must not change what memos return
+        let paused = !has_eff && r.chance(1, 4);
+        if paused {
+            tags.push("paused");
+        }
+        let dispw = r.chance(1, 4);
+        if dispw {
+            tags.push("disposew");
+        }
         let acc = if lifecycle && !SPLIT_WITH_PAUSE { acc.map(|n| n - (n / 3 % 4) * 3) } else { acc };
         if acc.is_some() {
             tags.retain(|t| *t != "plain");
@@ -797,9 +834,19 @@ pub fn gen(mode: Mode, seed: u64, n: usize, path: &str, _tier: &str) -> std::io:
         if let Some(m) = dropm {
             ops.push(format!("read {m}"));
         }
+        let scope_at = r.range(0, len / 2);
         for step in 0..len {
             if let (Some(m), true) = (dropm, step == drop_at) {
                 ops.push(format!("drop {m}"));
+            }
+            if p.scope.is_some() && step == scope_at {
+                ops.push("cleanupscope 0".into());
+            }
+            if paused && r.chance(1, 5) {
+                ops.push((*r.pick(&["pauseall", "pauseall", "resumeall"])).into());
+            }
+            if dispw && r.chance(1, 5) {
+                ops.push(format!("disposew {}", *r.pick(&readable)));
             }
             let k = r.below(10);
             if lifecycle && r.chance(1, 6) {
